@@ -26,8 +26,8 @@ type mconn struct {
 	open      bool
 	accepted  bool
 	keepAlive uint16
-	qos2in    map[uint16]*q2ex // QoS 2 exchanges open on this connection
-	qos2order []uint16
+	qos2in    map[uint16]*q2ex // QoS 2 exchanges on this connection: the newest one per identifier
+	qos2order []*q2ex          // all of them, oldest first (released ones wait here for their turn)
 	sess      *msession
 	lastRecv  int64 // virtual time of the last bytes the client sent
 	dialed    int64
@@ -180,9 +180,8 @@ func (m *Model) Key() string {
 			w = fmt.Sprintf("%s/%s/%d/%v", c.will.Topic, c.will.Payload, c.will.QoS, c.will.Retain)
 		}
 		var q2 []string
-		for _, id := range c.qos2order {
-			x := c.qos2in[id]
-			q2 = append(q2, fmt.Sprintf("%d:%s:%v:%v", id, short(string(x.pkt.Payload)), x.released, x.delivered))
+		for _, x := range c.qos2order {
+			q2 = append(q2, fmt.Sprintf("%d:%s:%v:%v", x.pkt.ID, short(string(x.pkt.Payload)), x.released, x.delivered))
 		}
 		ks = append(ks, fmt.Sprintf("C:%s=%s,clean=%v,acc=%v,will=%s,q2=%v", n, c.cid, c.clean, c.accepted, w, q2))
 	}
